@@ -158,7 +158,11 @@ def prepare_unit(unit, scratch, mutate=None):
         with open(os.path.join(d, 'consts.hpp'), 'w') as f:
             f.write(t)
         info['consts'] = names
-    for ent in unit.get('shadow', []):
+    shadow = list(unit.get('shadow', []))
+    for other in unit.get('shadow_from', []):   # reuse the (real header -> shadow tree) rules of another unit
+        with open(os.path.join(VERIF, 'units', other, 'unit.json')) as f:
+            shadow += [e for e in json.load(f).get('shadow', []) if e['dst'] not in [x['dst'] for x in shadow]]
+    for ent in shadow:
         text = src_text(ent['src'])
         try:
             text, fired = extract.apply_rewrites(text, ent.get('rewrites', []), 'in ' + ent['src'])
@@ -270,6 +274,8 @@ def classify(prop):
         return 'reach'
     if desc.startswith('VBK_ASSERT'):
         return 'vbk_assert'
+    if desc.startswith('MODEL:'):
+        return 'model'
     if '.unwind.' in name or 'unwinding assertion' in desc:
         return 'unwind'
     if 'builtin-library' in (prop.get('sourceLocation', {}).get('file', '')) or name.startswith('__CPROVER_contracts'):
@@ -431,16 +437,19 @@ def judge(res, h):
     if dead:
         raise Undecided('vacuous: REACH point(s) not reachable: ' + ', '.join(o['desc'] for o in dead))
     real = [o for o in obs if o['class'] != 'reach']
-    unw = [o for o in real if o['class'] == 'unwind' and o['status'] != 'SUCCESS']
-    if unw:
-        raise Undecided('unwinding assertion failed (bound too small): ' + unw[0]['name'])
+    # a failed obligation with a trace is a real execution whatever happens to loop bounds / model capacities elsewhere;
+    # failed unwinding assertions and MODEL bounds alone mean "could not decide" (they only guard the soundness of SUCCESS)
+    hard = [o for o in real if o['status'] != 'SUCCESS' and o['class'] not in ('unwind', 'model')]
+    soft = [o for o in real if o['status'] != 'SUCCESS' and o['class'] in ('unwind', 'model')]
+    if soft and not hard:
+        raise Undecided('unwinding assertion / model bound failed (bound too small): ' + soft[0]['name'])
     floor = h.get('floor', 1)
     if len(real) < floor:
         raise Undecided('obligation floor not reached: %d < %d' % (len(real), floor))
     for need in h.get('must_have', (['postcondition'] if h.get('enforce') else ['assertion'])):
         if not any(o['class'] == need or need in (o['name'] or '') for o in real):
             raise Undecided('expected obligation class %r missing' % need)
-    bad = [o for o in real if o['status'] != 'SUCCESS']
+    bad = hard
     res['failed'] = bad
     res['status'] = 'violated' if bad else 'ok'
 
@@ -478,29 +487,45 @@ def flatten_value(v):
 
 
 def write_replay(prop, res, replays_dir):
+    """replay file: failed obligations + verifier output; one input assignment per distinct counterexample trace
+    (memory-safety traces first: they are the ones a sanitizer build can confirm), at most 8"""
     os.makedirs(os.path.join(replays_dir, prop), exist_ok=True)
     path = os.path.join(replays_dir, prop, '%s.%s.json' % (res['unit'], res['harness']))
+    for old in glob.glob(path + '.inputs*'):
+        os.remove(old)
     failed = res.get('failed', [])
+    order = sorted([o for o in failed if o.get('trace')],
+                   key=lambda o: {'safety': 0, 'postcondition': 1, 'assertion': 1, 'vbk_assert': 1}.get(o['class'], 2))
+    cands, seen = [], set()
+    for o in order:
+        scal, arrs = simplify_inputs(trace_inputs(o.get('trace')))
+        key = json.dumps([scal, arrs], sort_keys=True)
+        if key in seen:
+            continue
+        seen.add(key)
+        cands.append({'obligation': o['name'], 'scalars': scal, 'arrays': arrs})
+        if len(cands) >= 8:
+            break
     doc = {'property': prop, 'unit': res['unit'], 'harness': res['harness'], 'label': res['label'],
            'backend': res['backend'],
            'failed_obligations': [{'name': o['name'], 'description': o['desc'], 'status': o['status'],
                                    'location': o['loc']} for o in failed],
-           'counterexample': trace_inputs(failed[0].get('trace')) if failed else {},
+           'counterexample': trace_inputs(order[0].get('trace')) if order else {},
            'verifier_output': ['[%s] %s: %s' % (o['name'], o['desc'], o['status']) for o in res['obligations']
                                if o['class'] != 'dfcc_library'],
            'native_replay': None}
-    scal, arrs = simplify_inputs(doc['counterexample'])
-    doc['inputs'] = {'scalars': scal, 'arrays': arrs}
+    doc['inputs'] = cands
     with open(path, 'w') as f:
         json.dump(doc, f, indent=1)
-    with open(path + '.inputs', 'w') as f:
-        f.write('H %s\n' % res['harness'])
-        for o in failed:
-            f.write('O %s\n' % o['name'])
-        for k, v in scal.items():
-            f.write('S %s %d\n' % (k, v))
-        for k, v in arrs.items():
-            f.write('A %s %d %s\n' % (k, len(v), ' '.join(str(x) for x in v)))
+    for i, c in enumerate(cands or [{'obligation': None, 'scalars': {}, 'arrays': {}}]):
+        with open(path + '.inputs' + ('' if i == 0 else '.%d' % i), 'w') as f:
+            f.write('H %s\n' % res['harness'])
+            for o in failed:
+                f.write('O %s\n' % o['name'])
+            for k, v in c['scalars'].items():
+                f.write('S %s %d\n' % (k, v))
+            for k, v in c['arrays'].items():
+                f.write('A %s %d %s\n' % (k, len(v), ' '.join(str(x) for x in v)))
     return path, doc
 
 
@@ -566,12 +591,17 @@ def native_replay(unit, res, path, doc, scratch):
             doc['native_replay'] = {'built': False, 'output': so[-3000:]}
             json.dump(doc, open(path, 'w'), indent=1)
             return None
-    rc, so, dt, to = run_nolimit([exe, path + '.inputs', res['harness']], rd, 120)
-    out = {'built': True, 'exit': rc, 'output': so[-4000:], 'reproduced': ('REPRODUCED' in so and 'NOT-REPRODUCED' not in so)
-           or ('ERROR: AddressSanitizer' in so) or ('runtime error' in so)}
-    doc['native_replay'] = out
+    runs, reproduced = [], False
+    for inp in sorted(glob.glob(path + '.inputs*')):
+        rc, so, dt, to = run_nolimit([exe, inp, res['harness']], rd, 120)
+        rep = (('REPRODUCED' in so and 'NOT-REPRODUCED' not in so) or ('ERROR: AddressSanitizer' in so) or ('runtime error' in so))
+        runs.append({'inputs': os.path.basename(inp), 'exit': rc, 'output': so[-4000:], 'reproduced': rep})
+        if rep:
+            reproduced = True
+            break
+    doc['native_replay'] = {'built': True, 'reproduced': reproduced, 'runs': runs}
     json.dump(doc, open(path, 'w'), indent=1)
-    return out['reproduced']
+    return reproduced
 
 
 _native_lock = threading.Lock()
